@@ -179,7 +179,7 @@ fn header_arg(ch: &mut Chooser) -> Option<u32> {
     }
 }
 
-pub fn gen_op(ch: &mut Chooser, format: Format, names: &[String], n_tables: usize) -> Op {
+pub fn gen_op(ch: &mut Chooser, format: Format, ref_ok: bool, names: &[String], n_tables: usize) -> Op {
     let n = names.len();
     let idx = |ch: &mut Chooser| if n == 0 { 0 } else { ch.below(n as u64 + 1) as usize };
     loop {
@@ -205,9 +205,10 @@ pub fn gen_op(ch: &mut Chooser, format: Format, names: &[String], n_tables: usiz
             94..=96 => Op::Vba,
             _ => Op::Meta,
         };
-        // keep the alphabet of the format (documented: no range_ref on eager formats)
+        // keep the alphabet of the format (documented: the eager formats' own readers have no
+        // range_ref; the `Sheets` wrapper of auto-detection has it for all four)
         let ok = match (&op, format) {
-            (Op::RangeRef(_) | Op::RangeAtRef(_), Format::Xls | Format::Ods) => false,
+            (Op::RangeRef(_) | Op::RangeAtRef(_), Format::Xls | Format::Ods) if !ref_ok => false,
             (Op::LoadMerged | Op::MergedAll | Op::MergedBySheet(_), f) if f != Format::Xlsx => false,
             (Op::LoadTables | Op::TableNames | Op::TableNamesInSheet(_) | Op::TableByName(_) | Op::TableByNameRef(_), f) if f != Format::Xlsx => false,
             (Op::MergeCells(_) | Op::MergeCellsAt(_), Format::Xlsb | Format::Ods) => false,
@@ -248,6 +249,7 @@ pub fn gen(ctx: &mut Ctx, idx: u64) -> (RunSpec, Cfg) {
     let mut ch = Chooser::new(seed, "c07");
     let m = ctx.models.get(&fx);
     let entry = if ch.chance(1, 3) { Entry::Auto } else { Entry::own(fx.format) };
+    let ref_ok = fx.format.is_lazy() || entry == Entry::Auto;
     let cfg = match ch.below(10) {
         0..=3 => Cfg::A,
         4..=5 => Cfg::B,
@@ -272,7 +274,7 @@ pub fn gen(ctx: &mut Ctx, idx: u64) -> (RunSpec, Cfg) {
                         _ => Op::SetHeader(header_arg(&mut ch)),
                     }
                 } else {
-                    gen_op(&mut ch, fx.format, &names, nt)
+                    gen_op(&mut ch, fx.format, ref_ok, &names, nt)
                 }
             }
             1 if ch.chance(1, 2) => {
@@ -284,7 +286,7 @@ pub fn gen(ctx: &mut Ctx, idx: u64) -> (RunSpec, Cfg) {
                         _ => Op::MergedBySheet(sheet_arg(&mut ch, &names)),
                     }
                 } else {
-                    gen_op(&mut ch, fx.format, &names, nt)
+                    gen_op(&mut ch, fx.format, ref_ok, &names, nt)
                 }
             }
             2 if ch.chance(1, 2) => {
@@ -292,12 +294,12 @@ pub fn gen(ctx: &mut Ctx, idx: u64) -> (RunSpec, Cfg) {
                 let a = sheet_arg(&mut ch, &names);
                 match ch.below(4) {
                     0 => Op::Range(a),
-                    1 if fx.format.is_lazy() => Op::RangeRef(a),
+                    1 if ref_ok => Op::RangeRef(a),
                     2 => Op::Formula(a),
                     _ => Op::SetHeader(header_arg(&mut ch)),
                 }
             }
-            _ => gen_op(&mut ch, fx.format, &names, nt),
+            _ => gen_op(&mut ch, fx.format, ref_ok, &names, nt),
         };
         ops.push(op);
     }
